@@ -15,6 +15,15 @@ CHECKS = {
  "C03": ("stateful property-based testing (proptest): generated histories, exact rational recomputation (256-bit) of every rate and mint/convert/undelegation from public queries",
          "Exploration: every step of every generated history is re-priced with independent 256-bit arithmetic from State/TokenInfo/CurrentBatch/AllHistory observations; malformed bonds must fail.",
          "DESIGN.md 5 C03"),
+ "C04": ("stateful property-based testing (proptest): generated histories around passive holders, monotonicity invariant between consecutive observations (exact Decimal comparison)",
+         "Exploration: in every generated history the reported rate of each token and floor(balance x rate) of every holder whose balance did not move are compared across every non-slashing step; BondRewards must raise the stSei rate and mint nothing.",
+         "DESIGN.md 5 C04"),
+ "C05": ("property-based testing (proptest): generated slashed states x four fee paths x fee/threshold grid, results bounded by exact no-fee and maximal-fee recomputation and by the post-state peg gap",
+         "Exploration: thousands of short generated histories reach slashed states and run bond / unbond / convert (both directions) with amounts from 1 unit to the whole pool; the credited result must lie between the exact maximal-fee and no-fee results, equal the no-fee result at or above the threshold, and never leave backing above claims by more than 2 units.",
+         "DESIGN.md 5 C05"),
+ "C06": ("stateful property-based testing with injected slashing faults (proptest): exact pro-rata reference for the recognised totals and for every release group, CheckSlashing idempotence probes on cloned worlds",
+         "Exploration with fault injection: slashing events of any size on any validator (bonded and unbonding stake) are injected into generated histories; the State view must equal the exact pro-rata split of the surviving delegations (within 2 units), never rise, CheckSlashing must book exactly that view and be idempotent, and every release group must pay each (batch, token) its pro-rata share of the coins that arrived.",
+         "DESIGN.md 5 C06"),
 }
 
 PENDING = {}
